@@ -253,6 +253,42 @@ def gen_ctype(ctx):
     return out
 
 
+def complexity_limit():
+    """FFI_COMPLEXITY_OUTPUT of src/c/ffi_obj.c (size of the opcode array handed to parse_c_type); fail closed to 1200"""
+    try:
+        m = re.search(r"#\s*define\s+FFI_COMPLEXITY_OUTPUT\s+(\d+)", open(os.path.join(vlib.REPO, "src", "c", "ffi_obj.c")).read())
+        return int(m.group(1)) if m else 1200
+    except OSError:
+        return 1200
+
+
+def gen_complexity(ctx):
+    """directed stream: for every declarator shape, strings whose opcode count runs through limit-2 .. limit+2.  The
+    opcode cost of the fixed part and of one repetition differs per shape (1..4), so for each plausible unit cost u the
+    repetition count sweeps (limit-8)/u .. (limit+6)/u: every parity/phase of the failing write_ds is hit, in particular
+    'the first opcode of an array suffix is the one that does not fit'."""
+    limit = complexity_limit()
+    shapes = [
+        (lambda n: "int" + "[]" * n, 0), (lambda n: "int" + "[3]" * n, 0), (lambda n: "int*" + "[]" * n, 0),
+        (lambda n: "int*" + "[3]" * n, 0), (lambda n: "int" + "*" * n, 0), (lambda n: "int" + "*" * (n // 2) + "[]" * (n - n // 2), 0),
+        (lambda n: "int" + "[]" * (n - 3) + "[3][3]", 0), (lambda n: "int" + "[3]" * (n - 2) + "[][]", 0),
+        (lambda n: "void(*)(char" + "[]" * n + ")", 0), (lambda n: "void(*)(int, char" + "[3]" * n + ")", 0),
+        (lambda n: "void(*)(" + "int," * n + "int)", 0), (lambda n: "void(*)(" + "int*," * n + "...)", 0),
+        (lambda n: "int" + "(*" * n + ")(void)" * n, 0), (lambda n: "int(*" + "(*" * n + ")(int)" * n + ")[]", 0),
+        (lambda n: "foo_t" + "[]" * n, 1), (lambda n: "struct foo_s *" + "[2]" * n, 1), (lambda n: "fn_t" + "[]" * n, 1),
+        (lambda n: "int(*)(foo_t" + "[]" * n + ", ...)", 1),
+    ]
+    out, seen = [], set()
+    for mk, ffi in shapes:
+        for u in (1, 2, 3, 4):
+            for n in range(max(1, (limit - 8) // u), (limit + 6) // u + 2):
+                t = mk(n)
+                if t not in seen:
+                    seen.add(t)
+                    out.append(dict(kind="ctype", text=t, bytes=False, ffi=ffi, limit=True))
+    return out
+
+
 MACRO_ALPHABET = "-0123789abfxXlLuU. "
 
 
@@ -295,7 +331,7 @@ def generate(ctx):
         e = gen_bad_expr(rng, rng.choice([0, 1, 1, 2, 2, 3, 4, 5]))
         if shift_ok(e):
             cases.append(dict(kind="expr", e=e))
-    return cases + gen_macros(ctx) + gen_fuzz(ctx) + gen_ctype(ctx)
+    return cases + gen_macros(ctx) + gen_fuzz(ctx) + gen_ctype(ctx) + gen_complexity(ctx)
 
 
 # ----------------------------------------------------------------------------- verdicts
@@ -386,6 +422,34 @@ def ctype_key(r):
     return None
 
 
+def run_malloc_debug(ctx, s, cases):
+    """the complexity-limit stream once more on the plain build with PYTHONMALLOC=debug: CPython's debug allocator
+    aborts in PyMem_Free when the pad bytes after the opcode array were overwritten"""
+    progress = os.path.join(s.work, "c30_progress_md")
+    todo = list(cases)
+    for attempt in range(8):
+        if not todo:
+            return
+        out, p = s.run_worker("c30_worker.py", dict(op="ctype", cases=todo, progress=progress), timeout=3000,
+                              extra_env={"PYTHONMALLOC": "debug"})
+        if out is not None and isinstance(out["results"], list):
+            ctx.count(len(todo))
+            ctx.hist("malloc_debug_child", "completed")
+            return
+        if out is not None:
+            ctx.violation(todo[0], "PYTHONMALLOC=debug child: setup failed: %r" % (out["results"],))
+            return
+        try:
+            i = int(open(progress).read().strip() or 0)
+        except (OSError, ValueError):
+            i = 0
+        i = min(i, len(todo) - 1)
+        ctx.hist("malloc_debug_child", "died")
+        ctx.violation(todo[i], "typeof(%r...) [%d chars] on a compiled FFI under PYTHONMALLOC=debug: process died rc=%s\n%s" % (
+            todo[i]["text"][:60], len(todo[i]["text"]), p.returncode, (p.stderr or "")[:1500]))
+        todo = todo[i + 1:]
+
+
 def run_ctypes(ctx, ctypes):
     s = ctx.scratch()
     d = recover_build(s)
@@ -424,11 +488,13 @@ def run_ctypes(ctx, ctypes):
             if r["exc"] not in ALLOWED_C:
                 ctx.violation(c, "typeof(%r) on a compiled FFI raises %s: %s" % (c["text"][:200], r["exc"], r.get("msg")),
                               key=ctype_key(r))
+    run_malloc_debug(ctx, s, [c for c in ctypes if c.get("limit")])
     for i, lines in sorted(reports.items()):
         rep = "\n".join(lines)
         if "runtime error" in rep or "AddressSanitizer" in rep:
             ctx.hist("sanitizer_reports", classify_report(rep, ctypes[i]) or "unknown")
-            ctx.violation(ctypes[i], "typeof(%r) on a compiled FFI: sanitizer report\n%s" % (ctypes[i]["text"][:300], rep[:1500]),
+            ctx.violation(ctypes[i], "typeof(%r%s) on a compiled FFI: sanitizer report\n%s" % (
+                ctypes[i]["text"][:300], " ... [%d chars]" % len(ctypes[i]["text"]) if len(ctypes[i]["text"]) > 300 else "", rep[:1500]),
                           key=classify_report(rep, ctypes[i]))
 
 
